@@ -211,7 +211,7 @@ func doReplay(r *mc.Run) {
 			if res.panic != nil {
 				si := stages[res.panic.stage]
 				if !si.recovered {
-					r.Violation(fmt.Sprintf("C19:panic-escapes:%s:%s:%s", strings.SplitN(si.listener, "(", 2)[0], res.panic.stage, res.panic.fn), res.panic.msg+"\n"+clip(res.panic.stack, 1500), rp)
+					r.Violation(fmt.Sprintf("C19:panic-escapes:%s:%s", strings.SplitN(si.listener, "(", 2)[0], res.panic.fn), res.panic.msg+"\n"+clip(res.panic.stack, 1500), rp)
 				}
 			}
 		}
